@@ -313,7 +313,10 @@ struct Outcome {
     redirect_opt_matches: bool,        // an active `redirect=` rule (not exception/generichide) matches
     exception_matches: bool,           // an active rule of the exceptions category matches
     other_blocker_matches: bool,       // an active blocking rule that is not a pure redirect-rule matches
-    rr_important_matches: bool,        // a matching redirect-rule + important rule (known class)
+    rr_important_matches: bool,        // a matching redirect-rule + important rule (must not block)
+    /// like `matching`, plus the matching redirect rules whose tag is ENABLED (the crate never serves them)
+    matching_with_enabled_tags: Vec<(bool, Option<String>, String)>,
+    tagged_redirect_opt_matches: bool, // a matching `redirect=` rule with an enabled tag (known class)
     shapes: Vec<(String, u32, bool, &'static str, bool)>, // line, mask, tagged, category, in redirects
     /// (added rule, redirect, matched) of the same list plus one plain exception / blocking / important rule
     variants: Vec<(String, Option<String>, bool)>,
@@ -348,6 +351,8 @@ fn eval(c: &Case, want_shapes: bool) -> Option<Outcome> {
     // per-rule scan
     let mut scan: Vec<(bool, Option<String>, String)> = vec![];
     let (mut redirect_opt_matches, mut exception_matches, mut other_blocker_matches, mut rr_important_matches) = (false, false, false, false);
+    let mut enabled_tagged: Vec<(bool, Option<String>, String)> = vec![];
+    let mut tagged_redirect_opt_matches = false;
     for (line, f) in live.iter().map(|x| (&x.0, &x.1)) {
         let mut rm = RegexManager::default();
         if !f.matches(&req, &mut rm) {
@@ -356,6 +361,12 @@ fn eval(c: &Case, want_shapes: bool) -> Option<Outcome> {
         let tagged = adblock::verif_hooks::filter_tag(f).is_some();
         if f.is_redirect() && !tagged {
             scan.push((f.is_exception(), f.modifier_option.clone(), line.clone()));
+        }
+        if f.is_redirect() && tagged && active_tag(f, &c.tags) {
+            enabled_tagged.push((f.is_exception(), f.modifier_option.clone(), line.clone()));
+            if !f.is_exception() && !f.is_generic_hide() && f.also_block_redirect() && !f.is_important() {
+                tagged_redirect_opt_matches = true;
+            }
         }
         if f.is_csp() || f.is_removeparam() || f.is_generic_hide() {
             continue;
@@ -404,6 +415,9 @@ fn eval(c: &Case, want_shapes: bool) -> Option<Outcome> {
     } else {
         scan
     };
+
+    let mut matching_with_enabled_tags = matching.clone();
+    matching_with_enabled_tags.extend(enabled_tagged);
 
     let mut shapes = vec![];
     if want_shapes {
@@ -458,6 +472,8 @@ fn eval(c: &Case, want_shapes: bool) -> Option<Outcome> {
         exception_matches,
         other_blocker_matches,
         rr_important_matches,
+        matching_with_enabled_tags,
+        tagged_redirect_opt_matches,
         shapes,
     })
 }
@@ -579,9 +595,21 @@ fn oracle(c: &Case, o: &Outcome) -> Option<(Option<&'static str>, String)> {
     // redirect-rule never blocks
     if o.got_matched && !o.other_blocker_matches {
         if o.rr_important_matches {
-            return Some((Some("C13_redirect_rule_important_blocks"), "request blocked although only redirect-rule rules (with important) match".into()));
+            // was the known class C13_redirect_rule_important_blocks; repaired in /repo b0d8343
+            return Some((None, "request blocked although only redirect-rule rules (with important) match".into()));
         }
         return Some((None, "request blocked although no blocking rule other than redirect-rule matches".into()));
+    }
+    // known class: a redirect / redirect-rule option on a rule whose tag is enabled is never served
+    // and never blocks (`redirects` and `filters` are probed with the empty tag set)
+    if o.matching_with_enabled_tags.len() != o.matching.len() {
+        let strict = reference(o.supported, &o.matching_with_enabled_tags, &c.store);
+        if !strict.contains(&o.got_redirect) {
+            return Some((Some("C13_tagged_redirect_inert"), format!("redirect {:?} but with the enabled-tag redirect rules counted the specification allows {:?}", o.got_redirect, strict)));
+        }
+        if o.tagged_redirect_opt_matches && !o.exception_matches && !o.got_matched {
+            return Some((Some("C13_tagged_redirect_inert"), "a matching redirect= rule with an enabled tag did not block the request".into()));
+        }
     }
     None
 }
@@ -602,12 +630,21 @@ fn main() {
     let a = args();
     if let Some(p) = &a.replay {
         let v: Value = serde_json::from_str(&std::fs::read_to_string(p).unwrap()).unwrap();
+        if let Some(t) = v["replay"]["i32"].as_str() {
+            println!("str::parse::<i32>({:?}) = {:?}; grammar = {:?}", t, t.parse::<i32>().ok(), spec_parse_i32(t));
+            if t.parse::<i32>().ok().map(|x| x as i64) != spec_parse_i32(t) {
+                println!("VIOLATION property=C13 replay={}", p.display());
+                std::process::exit(1);
+            }
+            return;
+        }
         let c = Case::from_json(&v["replay"]);
         let o = eval(&c, false).expect("request could not be built");
         println!(
-            "matching={:?} impl: redirect={:?} matched={} important={}; spec allows {:?}; redirect_opt_matches={} exception_matches={} other_blocker_matches={} rr_important_matches={}",
+            "matching={:?} impl: redirect={:?} matched={} important={}; spec allows {:?}; redirect_opt_matches={} exception_matches={} other_blocker_matches={} rr_important_matches={} enabled_tag_redirect_rules={}",
             o.matching, o.got_redirect, o.got_matched, o.got_important, reference(o.supported, &o.matching, &c.store),
-            o.redirect_opt_matches, o.exception_matches, o.other_blocker_matches, o.rr_important_matches
+            o.redirect_opt_matches, o.exception_matches, o.other_blocker_matches, o.rr_important_matches,
+            o.matching_with_enabled_tags.len() - o.matching.len()
         );
         if let Some((class, what)) = oracle(&c, &o) {
             println!("{} ({})", what, class.unwrap_or("new"));
